@@ -396,7 +396,8 @@ func (c *calcProduct) partiallySimplify() calcTerm {
 
 	// ALGORITHM DEVIATION: Divide instead of multiply if the reciprocal is shorter
 	for i := 1; i < len(terms); i++ {
-		if numeric, ok := terms[i].data.(*calcNumeric); ok {
+		// This is only valid for plain numbers since "x * 0.5px" is not "x / 2px"
+		if numeric, ok := terms[i].data.(*calcNumeric); ok && numeric.unit == "" {
 			reciprocal := 1 / numeric.number
 			if multiply, ok := floatToStringForCalc(numeric.number); ok {
 				if divide, ok := floatToStringForCalc(reciprocal); ok && len(divide) < len(multiply) {
